@@ -3,6 +3,7 @@ import MtailVerif.Driver.C15
 import MtailVerif.Driver.C09
 import MtailVerif.Driver.C21
 import MtailVerif.Driver.C10
+import MtailVerif.Driver.C12
 /-! `mtailmodel <prop>`: reads the case lines written by the Go harness on stdin and prints
     `<id> OBS <observation>` computed by the Lean model.  Core Lean only (links as an exe). -/
 open MtailVerif MtailVerif.Driver
@@ -14,6 +15,7 @@ def handlerFor (prop : String) : Option (List String → String) :=
   | "C09" => some C09.handle
   | "C21" => some C21.handle
   | "C10" => some C10.handle
+  | "C12" => some C12.handle
   | _ => none
 
 partial def loop (h : IO.FS.Stream) (out : IO.FS.Stream) (f : List String → String) : IO Unit := do
